@@ -113,7 +113,11 @@ int do_op (string line) {
   case "sent": obs[b]->doact (a, v[c], v[d]); break;
   case "rmsent": obs[b]->rmact (a); break;
   case "err": boom (v[a], v[b], 3); break;
-  case "efun": catch (run_efun (a, v[b], v[c])); break;
+  case "efun":
+    catch (run_efun (a, v[b], v[c]));
+    // (s)printf keeps its output buffers after an error and releases them on its next call
+    if (a == 7) sprintf ("%d", 1);
+    break;
   default: VL ("badop " + line);
   }
   return 1;
